@@ -616,7 +616,7 @@ func writeEvidence(path, prop, tier string, seed int, start time.Time, items []*
 	cov := map[string]any{
 		"obligations": total, "discharged": ok,
 		"checker_cmd":  fmt.Sprintf("bin/gocv check %s --tier %s  (go/ssa VC generation from /repo working tree; z3-new 5.1.0 | cvc5 1.0 | z3 4.8.12 portfolio)", prop, tier),
-		"trusted_base": []string{"go/packages+go/types+go/ssa (x/tools v0.29.0) faithful to the Go sources", "gocv VC generator: SMT semantics of SSA instructions and memory model (DESIGN.md §2)", "SMT solver soundness (z3 5.1.0, z3 4.8.12, cvc5 1.0)", "sequential execution, no unsafe, int is 64 bit"},
+		"trusted_base": []string{"go/packages+go/types+go/ssa (x/tools v0.29.0) faithful to the Go sources", "gocv VC generator: SMT semantics of SSA instructions and memory model (DESIGN.md §2; includes the append/copy lemmas and, where a contract sets `mapcard`, the instances len >= 1 / len >= 2 of map length = number of keys)", "SMT solver soundness (z3 5.1.0, z3 4.8.12, cvc5 1.0)", "sequential execution, no unsafe, int is 64 bit"},
 		"functions_under_contract": funcs, "by_solver": bySolver, "solver_time_s": round3(solverTime),
 		"samples": samples, "known_findings_hit": knownHit, "not_proved": notProved, "vacuity_probes_sat": covers, "vacuity_probes_inconclusive": coversInconclusive,
 		"integer_semantics": "mathematical integers with exact machine wrap-around per Go type (no bit-vectors)",
